@@ -1,0 +1,55 @@
+//go:build verif
+
+package gojq
+
+// Verification hook (add-only, tag verif): the instruction list of a compiled query in a
+// canonical, implementation-independent shape (see debug.go for how operands are shaped).
+
+// VerifInstr is one instruction. Kind tells which operand fields are meaningful:
+//
+//	"none"   no operand
+//	"int"    N (jump/fork target, pc, object size)
+//	"var"    Var (scope id, index)
+//	"value"  V (a JSON value: nil, bool, int, float64, *big.Int, json.Number, string, []any, map[string]any)
+//	"native" Name, Argc (opcall of a native function)
+//	"scope"  Scope (id, variable count, argument count)
+type VerifInstr struct {
+	Op    string
+	Kind  string
+	N     int
+	Var   [2]int
+	Scope [3]int
+	V     any
+	Name  string
+	Argc  int
+}
+
+// VerifDumpCode returns the instructions of c in order.
+func VerifDumpCode(c *Code) []VerifInstr {
+	out := make([]VerifInstr, len(c.codes))
+	for i, code := range c.codes {
+		in := VerifInstr{Op: code.op.String(), Kind: "none"}
+		switch code.op {
+		case opnop:
+			// the operand of a rewritten instruction is dead
+		case oppush, opconst, opindex, opindexarray:
+			in.Kind, in.V = "value", code.v
+		default:
+			switch v := code.v.(type) {
+			case nil:
+			case int:
+				in.Kind, in.N = "int", v
+			case [2]int:
+				in.Kind, in.Var = "var", v
+			case [3]int:
+				in.Kind, in.Scope = "scope", v
+			case [3]any:
+				in.Kind, in.Argc, in.Name = "native", v[1].(int), v[2].(string)
+			default:
+				in.Kind, in.V = "value", v
+			}
+		}
+		out[i] = in
+	}
+	return out
+}
